@@ -78,6 +78,8 @@ PROPERTIES = {
             {"name": "construct_index_eq", "cases": FS.c16_cases(tier, seed), "exhaustive": True,
              "what": "all shapes rank<=4 sizes<=3: dims+values / zeros / flat / nested constructors, every index, refusals, equality across tracking state, graph and gradient",
              "require": {"judged": 3000, "refusals": 300, "owned": 20}},
+            {"name": "special_values", "cases": FE.special_value_cases(tier, seed + 3), "mask": {"equality", "index-value", "values", "dims", "approx-equality"},
+             "what": "equality, nested construction and indexing on arrays with repeated rows, zeros produced with either sign (negated zeros, products with negative numbers), equal elements, values differing by 2^-20"},
         ],
         "rule": "a case = one shape with its constructions, all of its indices, or one equality scenario; distinct by program hash",
     },
@@ -89,6 +91,8 @@ PROPERTIES = {
             {"name": "reduce_reshape_pointwise", "cases": FS.c07_cases(tier, seed), "exhaustive": True,
              "what": "all shapes rank<=4 sizes<=3 x sum(k) for every k, sum_all, reshape to every factorisation and to refused targets, neg/scale/powf(n)/reciprocal/relu on dyadic values",
              "require": {"judged": 3000, "refusals": 300}},
+            {"name": "special_values", "cases": FE.special_value_cases(tier, seed + 2), "mask": {"values", "dims", "unexpected-panic"},
+             "what": "point-wise functions, sums and reshape on all-zero / all-one / equal / tiny (2^-40) / single-zero arrays"},
             {"name": "pointwise_real", "cases": FR.real_op_cases(tier, seed + 1), "spec": "TraceReal", "real": True,
              "mask": {"real-value", "dims", "unexpected-panic", "values"},
              "what": "real domain: ln, exp, sigmoid, softmax (= exp / sum of exp over the last dimension), powf with non-integer exponents, reciprocal on random real values",
